@@ -17,7 +17,7 @@ VARIABLES tid, l
 tvars == <<c, tid, l>>
 T == Traces[tid]
 
-TInit == tid \in 1..NT /\ l = 1 /\ CInit
+TInit == tid \in 1..NT /\ l = 1 /\ CInitH(T.cfg.hook)
 
 \* operations of the connection-management API must match one to one; API calls are compared
 \* only when the gate refused them
@@ -36,11 +36,16 @@ Match(y, e) ==
   /\ SameOps(Mgmt(y.dn), Mgmt(e.dn))
   \* a refused API call raised a connection error in this very callback and wrote nothing
   /\ (y.gate = "shut") => (e.wn = 0 /\ Len(Apis(e.dn)) = 1 /\ Apis(e.dn)[1][3])
+  \* a command issued from the stop callback: refused likewise; the callback itself may have written the
+  \* frames of the disconnect, but never the command
+  /\ (y.gate = "shut_in_stop") => (Len(Apis(e.dn)) = 1 /\ Apis(e.dn)[1][3] /\ \A k \in 1..Len(e.w) : e.w[k] # "SwitchCommandRequest")
 
 Diff(y, e) ==
   (IF y.ptr # e.pi THEN {"pi"} ELSE {}) \cup (IF y.st # e.sts THEN {"sts"} ELSE {}) \cup
   (IF ~SameOps(Mgmt(y.dn), Mgmt(e.dn)) THEN {"dn"} ELSE {}) \cup
-  (IF y.gate = "shut" /\ ~(e.wn = 0 /\ Len(Apis(e.dn)) = 1 /\ Apis(e.dn)[1][3]) THEN {"gate"} ELSE {})
+  (IF y.gate = "shut" /\ ~(e.wn = 0 /\ Len(Apis(e.dn)) = 1 /\ Apis(e.dn)[1][3]) THEN {"gate"} ELSE {}) \cup
+  (IF y.gate = "shut_in_stop" /\ ~(Len(Apis(e.dn)) = 1 /\ Apis(e.dn)[1][3] /\ \A k \in 1..Len(e.w) : e.w[k] # "SwitchCommandRequest")
+   THEN {"gate"} ELSE {})
 
 Internal(x) ==
   UNION {PhaseEnd(x, j, "ok") \cup PhaseEnd(x, j, "err") : j \in 1..Len(x.phs)} \cup Progress(x) \cup Noop(x)
